@@ -20,7 +20,7 @@ RULE = (
 )
 ASSUMPTIONS = ["the generator renders cells to text faithfully", "fractions.Fraction is exact"]
 MONITORS = ["decode", "repeat_iteration", "ordering_ops", "str_identity", "columns", "via_chart"]
-REQUIRED = ["odd_rows", "rows_192", "rows_above_192", "keysound_shifts_later_column", "three_players", "crlf",
+REQUIRED = ["measure_repeated_after_empty_measures", "odd_rows", "rows_192", "rows_above_192", "keysound_shifts_later_column", "three_players", "crlf",
             "same_position_pair", "cross_player_pair", "corpus_chart"]
 
 
@@ -116,6 +116,14 @@ def check(ctx, case):
             ctx.feat("rows_above_192")
     if "\r\n" in text:
         ctx.feat("crlf")
+    if case["kind"] == "gen":
+        for section in text.split("&"):
+            ms = [m.strip() for m in section.split(",")]
+            for i, m in enumerate(ms):
+                if any(ch not in "0\r\n \t" for ch in m) and m in ms[:i]:
+                    j = len(ms[:i]) - 1 - ms[:i][::-1].index(m)
+                    if j < i - 1 and all(all(ch in "0\r\n \t" for ch in x) for x in ms[j + 1:i]):
+                        ctx.feat("measure_repeated_after_empty_measures")
     if exp and exp[-1][0] >= 2:
         ctx.feat("three_players")
     if any(e[5] is not None for e in exp):
